@@ -210,6 +210,14 @@ def exec_sm(case):
                 if not same(got, np.array(hist[k])):
                     raise Violation(f"{where}: get_history('{k}') wrong", sig={"kind": "history-corrupted"})
             scribble(got, scribbles)
+            # the same query again: must not see what the caller did to the first answer
+            if op["index"] is None and L > 0:
+                flat = op["flat"] and k in ("u", "x", "logl", "blobs")
+                again = lib_call(sm.get_history, k, flat=flat, what="get_history (again)")
+                exp = np.concatenate(hist[k]) if flat else np.array(hist[k])
+                if not same(again, exp):
+                    raise Violation(f"{where}: get_history('{k}', flat={flat}) returns the array the caller modified a moment ago "
+                                    f"instead of the committed history", sig={"kind": "history-corrupted"})
         elif o == "get_last":
             got = lib_call(sm.get_last_history, op["key"], what="get_last_history")
             exp = hist[op["key"]][-1] if hist[op["key"]] else None
@@ -240,6 +248,11 @@ def exec_sm(case):
             c = lib_call(sm.compute_logw_and_logz, op["beta"], what="compute_logw_and_logz")
             if not same(b[0], c[0]) or not same(b[1], c[1]):
                 raise Violation(f"{where}: compute_logw_and_logz changed after its result was modified", sig={"kind": "logw-corrupted"})
+            from vlib.refs import mis_logw
+            rl, rz, M = mis_logw(hist["logl"], hist["beta"], hist["logz"], op["beta"])
+            if np.max(np.abs(np.asarray(c[0], dtype=float) - np.asarray(rl, dtype=float))) > 1e-8 * max(1.0, M) or abs(float(c[1]) - float(rz)) > 1e-8 * max(1.0, M):
+                raise Violation(f"{where}: compute_logw_and_logz({op['beta']}) does not correspond to the committed history any more "
+                                f"(an array handed out earlier and modified by the caller is being used)", sig={"kind": "logw-corrupted"})
         elif o == "to_dict":
             dd = lib_call(sm.to_dict, what="to_dict")
             md = model_dict()
